@@ -259,6 +259,16 @@ func checkC20Weights(c C20Case) (o Outcome) {
 		}
 		// expected weight per output row = sum over the commodities mapped onto it (leaf or group)
 		exp := map[string]float64{}
+		// knut computes shares in float64: a total that is the small difference of large holdings (a position
+		// financed by a loan) is known only up to the conditioning of that sum, and so is every share of it.
+		// Allowed on top of the printed precision: 64 ulp x (sum |holdings| / |total|) x sum |member shares|.
+		sumAbs := new(big.Rat)
+		for _, v := range hold[d] {
+			sumAbs.Add(sumAbs, ref.Abs(v))
+		}
+		kappa, _ := new(big.Rat).Quo(sumAbs, ref.Abs(total)).Float64()
+		absW := map[string]float64{}
+		wtol := func(a float64) float64 { return 64 * 2.3e-16 * kappa * a }
 		for com, v := range hold[d] {
 			if v.Sign() == 0 {
 				continue
@@ -268,6 +278,7 @@ func checkC20Weights(c C20Case) (o Outcome) {
 			for i := range path {
 				// every prefix is a row: groups carry the sum of their members
 				exp[strings.Join(path[:i+1], "\x00")] += w
+				absW[path[i]] += math.Abs(w)
 			}
 		}
 		// compare by row name: names are unique by construction of the generator (classes never equal commodities)
@@ -286,7 +297,7 @@ func checkC20Weights(c C20Case) (o Outcome) {
 			if !ok {
 				g = 0
 			}
-			if math.Abs(g-w) > 2e-6 {
+			if math.Abs(g-w) > 2e-6+wtol(absW[name]) {
 				o.Violation = V("weight-mismatch", "knut %v\nrow %q on %s: weight %.6f, expected %.6f from the valued balance (total %s)\n--weights--\n%s\n--balance--\n%s\n--journal--\n%s",
 					wargs, name, d, g, w, total.FloatString(4), clip(rw.Stdout, 1500), clip(rb.Stdout, 2500), clip(c.Text, 2500))
 				return o
@@ -478,6 +489,12 @@ func checkC20Returns(c C20Case) (o Outcome) {
 			f0, _ := v0.Float64()
 			f1, _ := v1.Float64()
 			tol := 0.051 + 100*e*float64(len(ideal)+1)*1e-8*(1/f0+1/f1)
+			if float64(len(ideal)+1)*1e-8/f0 > 0.01 {
+				// a start value of the size of knut's 8-decimal truncation (it may be exactly zero for knut):
+				// the quotient is not determined to any useful precision, the statement has nothing to compare
+				o.Labels = append(o.Labels, "start-value-below-truncation")
+				continue
+			}
 			if math.Abs(lines[i].pct-exp) > tol {
 				o.Violation = V("flow-free-return", "knut %v\nperiod ending %s has no flows: value %s -> %s, return %s%%, expected %.3f%%\n%s\n--journal--\n%s", args, p.End, v0.FloatString(4), v1.FloatString(4), lines[i].raw, exp, clip(r.Stdout, 800), clip(c.Text, 2500))
 				return o
